@@ -302,3 +302,33 @@ def anonymous_namespace_names(ctx):
     wt = db.func("codegen._GenerateRenderMethod.write_toplevel")
     keyed = any(P.has(f_, "$t[%s.name] = %s" % (pn(f_, 1), pn(f_, 1))) for f_ in ast.walk(wt) if isinstance(f_, ast.FunctionDef) and f_ is not wt and f_.name == "visitNamespaceTag")
     ctx.check(keyed, "table-keyed-by-name", db.where(wt), "namespace table is no longer keyed by the tag's name (rule out of date)", "namespaces[node.name] = node")
+
+
+@rule("C07.star-import-complete", primary=False, min_instances=2)
+def star_import_complete(ctx):
+    """import="*" brings in the namespace's own exports whether or not defs are written inside the <%namespace> tag: in _get_star the exports of the template / module are not conditional on `self.callables`"""
+    db = ctx.db
+    for cls, needles in (("TemplateNamespace", ("_exports", "_exported_callables")), ("ModuleNamespace", ("dir(self.module)", "_exported_callables"))):
+        q = "runtime.%s._get_star" % cls
+        if not db.has(q):
+            q = "runtime.Namespace._get_star"
+        fn = db.func(q)
+        hits = [n for g in db.with_helpers(fn) for n in walk_func(g) if isinstance(n, (ast.For, ast.comprehension)) and any(k in src(n.iter) for k in needles)]
+        if not hits and q.endswith("Namespace._get_star") and cls != "Namespace":
+            ctx.undecided("exports:" + cls, db.where(fn), "iteration over the exports not found")
+            continue
+        ctx.require(hits, "%s: iteration over the exports not found (anchor)" % q)
+        h = hits[0]
+        conds = []
+        x = h
+        while x is not None and x is not fn:
+            p_ = getattr(x, "_parent", None)
+            if isinstance(p_, ast.If):
+                conds.append((src(p_.test), x in p_.body))
+            elif isinstance(p_, ast.IfExp) and x is not p_.test:
+                conds.append((src(p_.test), x is p_.body))
+            x = p_
+        guarded = [c for c in conds if "callables" in c[0]]
+        ctx.check(not guarded, "exports:" + cls, db.where(h),
+                  "%s._get_star hands out the exports of the %s only when `%s` is %s: a <%%namespace file=... import=*> tag that also has a <%%def> written inside it no longer imports the file's defs (the names fall back to context variables / UNDEFINED)" % (cls, "template" if cls == "TemplateNamespace" else "module", guarded[0][0] if guarded else "", guarded[0][1] if guarded else ""),
+                  "exports are unconditional")
